@@ -1486,5 +1486,6 @@ func c11Controls() []core.Mutant {
 			New: "\t\t\t\tnext := op.precedence\n\t\t\t\tif op.associativity != right {\n\t\t\t\t\tnext++\n\t\t\t\t}\n\t\t\t\tnodeRight = p.parseExpression(next)"},
 		{Name: "REFACTORING: continuation test written as an early break", File: P, Silent: true,
 			Old: "\t\t\tif op.precedence >= precedence {\n\t\t\t\tp.next()\n", New: "\t\t\tif precedence > op.precedence {\n\t\t\t\tbreak\n\t\t\t}\n\t\t\t{\n\t\t\t\tp.next()\n"},
+		{Name: "pattern of matches parsed as a primary", File: "parser/parser.go", Old: "\t\t\t\t\tnodeLeft = &MatchesNode{\n\t\t\t\t\t\tRegexp: r,\n\t\t\t\t\t\tLeft:   nodeLeft,\n\t\t\t\t\t\tRight:  nodeRight,", New: "\t\t\t\t\tpattern := p.parsePrimary()\n\t\t\t\t\tnodeLeft = &MatchesNode{\n\t\t\t\t\t\tRegexp: r,\n\t\t\t\t\t\tLeft:   nodeLeft,\n\t\t\t\t\t\tRight:  pattern,", Rule: "R11.6", Construct: "takes its right operand from the climbing recursion"},
 	}
 }
